@@ -326,7 +326,7 @@ pub fn guard<T, F: FnOnce() -> T>(f: F) -> Result<T, (String, String)> {
     }
 }
 
-fn guarded_check<P: Prop>(prop: &P, case: &P::Case) -> Outcome {
+pub(crate) fn guarded_check<P: Prop>(prop: &P, case: &P::Case) -> Outcome {
     match guard(|| prop.check(case)) {
         Ok(o) => o,
         Err((loc, msg)) => {
@@ -377,7 +377,7 @@ pub struct Stats {
 }
 
 impl Stats {
-    fn record<C: Serialize>(&mut self, case: &C, out: &Outcome, enumerated: bool) {
+    pub(crate) fn record<C: Serialize>(&mut self, case: &C, out: &Outcome, enumerated: bool) {
         self.evaluations += 1;
         if enumerated {
             self.enumerated += 1;
@@ -452,7 +452,7 @@ fn seed_bytes(seed: u64) -> u64 {
 
 /// evaluates one case against the known-finding list.
 /// returns (outcome, first unlisted failure)
-fn evaluate<P: Prop>(
+pub(crate) fn evaluate<P: Prop>(
     prop: &P,
     case: &P::Case,
     known: &KnownFindings,
